@@ -79,11 +79,11 @@ var Meta = map[string]PropMeta{
 	"C03": {
 		Level:     "fault_enumeration",
 		Technique: "deterministic simulation with fault injection: single-bit flips in flight addressed protocol-relative (token word / literal byte / trailer byte of a given file, located by decoding the fault-free run's wire history), an external writer mutating the basis between signature generation and reconstruction (at a scheduler step), and a reference sender that describes other bytes than its (true) trailer claims",
-		Rule:      "wire mode: 1-3 files of the shapes whole-file / mixed delta / pure delta, real sender and real receiver in pull and push (A1, A2, A3 both ways); a fault-free run is decoded to enumerate all token-word, literal and trailer byte positions; then 10 (thorough: 60) single faults per scenario: bit flip at a drawn position of a drawn class (token words: bits 0-10,12,16,20,31), or basis mutation at a drawn step. Oracle after each faulted run: every listed file holds its previous content (or the externally written one) or exactly the sender's content; a session reporting success has updated every file the rule requires. script mode (every 5th run): reference sender answers with the honest token stream perturbed (other valid block index, literal runs swapped/duplicated, token dropped, truncated) but the TRUE whole-file checksum: destination must stay unchanged and the client must fail. Non-trivial = at least one fault run on a session with data replies / a perturbation denoting different bytes",
+		Rule:      "wire mode: 1-3 files of the shapes whole-file / mixed delta / pure delta, real sender and real receiver in pull and push (A1, A2, A3 both ways); a fault-free run is decoded to enumerate all token-word, literal and trailer byte positions; then 10 (thorough: 30) single faults per scenario: bit flip at a drawn position of a drawn class (token words: bits 0-10,12,16,20,31), or basis mutation at a drawn step. Oracle after each faulted run: every listed file holds its previous content (or the externally written one) or exactly the sender's content; a session reporting success has updated every file the rule requires. script mode (every 5th run): reference sender answers with the honest token stream perturbed (other valid block index, literal runs swapped/duplicated, token dropped, truncated) but the TRUE whole-file checksum: destination must stay unchanged and the client must fail. Non-trivial = at least one fault run on a session with data replies / a perturbation denoting different bytes",
 		Assumptions: []string{"flips of token-word bits that declare hundreds of megabytes are not generated (resource exhaustion is outside the guarantee)", "index-word and sum-head flips are outside the property's quantifier (token words, literal bytes, trailer)", "wire bytes are identical between the fault-free and the faulted run of one process (same checksum seed inside the bubble)"},
 		Real:      realCommon, Stub: append([]string{"script mode: sending peer is the reference sender"}, stubCommon...),
 		Quick:     q(150, 60*time.Second),
-		Thorough:  q(5000, 25*time.Minute),
+		Thorough:  TierCfg{Runs: 5000, Budget: 25 * time.Minute, JobTimeout: 15 * time.Minute},
 	},
 	"C04": {
 		Level:     "fault_enumeration",
@@ -92,7 +92,7 @@ var Meta = map[string]PropMeta{
 		Assumptions: []string{"crash points are quiescent points (receiver parked in Read at byte N); crashes between two syscalls of one goroutine are not sampled", "power-loss durability (un-fsynced data) is not simulated: no storage seam", "freeze + snapshot stands in for SIGKILL of a subprocess (directory contents are what survives a kill)"},
 		Real:      realCommon, Stub: stubCommon,
 		Quick:     q(150, 60*time.Second),
-		Thorough:  q(6000, 25*time.Minute),
+		Thorough:  TierCfg{Runs: 6000, Budget: 25 * time.Minute, JobTimeout: 15 * time.Minute},
 	},
 	"C05": {
 		Level:     "exploration",
